@@ -46,7 +46,7 @@ PROPS["C18"] = dict(
                 "gars_decode_encode (all cells, precisions, centerp) and geohash_decode_encode / geohash_decode_encode46 (all cells, all lengths). "
                 "geohash_scale_contains (division-based scale step: Dy.divTo is proved to be the correctly rounded quotient, Proofs/DivTo.lean divTo_isRN; the "
                 "constants 180/2^45, 90/2^45, the pole adjustment and the addition of 2^45 are proved exact). "
-                "End to end on the exact cell: gars_cell_contains and geohash_cell_contains (the decoded cell of the exact code contains the prepared point, "
+                "End to end on the exact cell: gars_cell_contains, georef_cell_contains (prec 2..11) and geohash_cell_contains (the decoded cell of the exact code contains the prepared point, "
                 "every accepted finite position, every precision/length). "
                 "Georef integer round trip for every cell and precision: georef_decode_encode_tile / _degree / _long (the digit loop of Reverse is "
                 "turned into a fold, Proofs/GeorefLoop.lean, and evaluated on the digits of the encoder for all prec 2..11). "
